@@ -25,6 +25,11 @@ MODELLED = "ezpkt/src/tcp4.rs TcpFlow/TcpSeg and src/stdlib/ipv4/tcp.rs (push_st
 
 M32 = 1 << 32
 CL, SV = ("1.2.3.4", 1000), ("1.2.3.5", 80)
+# the endpoints of the scripts in rotation: usually distinct everywhere; also the same port on both hosts, and two ports
+# of one host -- a flow is told from its reverse by the (address, port) pair, never by the port or the address alone
+ENDPOINTS = [(CL, SV), (CL, SV), (("10.0.0.1", 5060), ("10.0.0.2", 5060)), (CL, SV), (("192.168.1.9", 7), ("192.168.1.9", 9)),
+             (("1.2.3.5", 80), ("1.2.3.4", 80))]
+_rot = [0]
 
 
 class Script:
@@ -32,6 +37,9 @@ class Script:
 
     def __init__(self, cl_isn, sv_isn, raw=False):
         self.cl_isn, self.sv_isn = cl_isn, sv_isn
+        self.cl, self.sv = ENDPOINTS[_rot[0] % len(ENDPOINTS)]
+        _rot[0] += 1
+        CL, SV = self.cl, self.sv
         self.stmts = [Import("ipv4"), Let("f", Call("ipv4::tcp::flow", SOCK(*CL), SOCK(*SV), cl_seq=cl_isn, sv_seq=sv_isn,
                                                  **({"raw": True} if raw else {})))]
         self.cl_used = self.sv_used = 0          # unbounded account
@@ -115,7 +123,7 @@ class Script:
                     self.cl_used += len(pl)
                 else:
                     self.sv_used += len(pl)
-            a, b = (CL, SV) if d == "c" else (SV, CL)
+            a, b = (self.cl, self.sv) if d == "c" else (self.sv, self.cl)
             inner = [Call("f." + name, _x=[STR(pl)], **kw)] if name.endswith("_raw_segment") else \
                     [Call("f." + name, bytes=len(pl)), STR(pl)]
             call = Call("ipv4::datagram", IP(ip(a[0])), IP(ip(b[0])), _x=inner, proto=6)
@@ -162,7 +170,7 @@ OPS = ["open", "client_message", "server_message", "client_segment", "server_seg
        "client_raw_segment", "server_raw_segment", "client_hdr", "server_hdr"]
 
 
-def segments(pcap):
+def segments(pcap, cl=CL):
     ok, recs = common.pcap_records(pcap)
     out = []
     for r in recs:
@@ -173,7 +181,7 @@ def segments(pcap):
             continue
         src = struct.unpack(">I", d[12:16])[0]
         sp, dp, seq, ack, doff, flags = struct.unpack(">HHIIBB", d[20:34])
-        out.append(("c" if (src, sp) == (ip(CL[0]), CL[1]) else "s", seq, ack if flags & 0x10 else None, flags, d[40:]))
+        out.append(("c" if (src, sp) == (ip(cl[0]), cl[1]) else "s", seq, ack if flags & 0x10 else None, flags, d[40:]))
     return ok, out
 
 
@@ -191,7 +199,7 @@ def reassemble(segs, isn):
 
 def check_case(ctx, c):
     sc = c.gen["script"]
-    oki, got = segments(c.impl.pcap)
+    oki, got = segments(c.impl.pcap, sc.cl)
     want = [sc.expect[i] for i in sc.emit_order]
     if got != want:
         for k, (g, w) in enumerate(zip(got, want)):
@@ -288,8 +296,8 @@ def run(ctx):
             continue
         before = len(ctx.violations)
         check_case(ctx, c)
-        oki, gi = segments(c.impl.pcap)
-        okm, gm = segments(c.model["pcap"])
+        oki, gi = segments(c.impl.pcap, c.gen["script"].cl)
+        okm, gm = segments(c.model["pcap"], c.gen["script"].cl)
         if [(a, b, cc, d, len(e)) for a, b, cc, d, e in gi] != [(a, b, cc, d, len(e)) for a, b, cc, d, e in gm] \
                 and len(ctx.violations) == before:
             ctx.fail("tcp-projection-differs", "(dir,seq,ack,flags,len) projection differs from the model",
